@@ -216,7 +216,7 @@ def run(ctx: common.Ctx):
     if quick:
         jobs = rng.sample(jobs, 450)
     res = tables.pmap(rt_worker, jobs, chunk=16)
-    for job, r in zip(jobs, res):
+    for job, r in tables.pairs(ctx, jobs, res):
         if isinstance(r, tables.Crashed):
             ctx.violation("asarray/interpreter-crash", f"{job}: worker died", {"job": repr(job)}); continue
         ctx.case(("roundtrip",) + job[:4], True, {k: r[k] for k in ("dtype", "shape", "mask", "form")} if len(ctx.samples) < 4 else None)
@@ -228,7 +228,7 @@ def run(ctx: common.Ctx):
     fns = ["zeros", "ones", "empty", "full", "zeros_like", "ones_like", "empty_like", "full_like", "eye", "arange", "linspace"]
     cjobs = [(fn, ctx.seed * 131 + k) for fn in fns for k in range(25 if quick else 400)]
     cres = tables.pmap(creation_worker, cjobs, chunk=8)
-    for job, r in zip(cjobs, cres):
+    for job, r in tables.pairs(ctx, cjobs, cres):
         if isinstance(r, tables.Crashed):
             ctx.violation(f"{job[0]}/interpreter-crash", f"{job}: worker died", {"job": repr(job)}); continue
         ctx.case(("creation", job[0], str(r.get("params"))), True, {"fn": r["fn"], **(r.get("params") or {})} if len(ctx.samples) < 8 else None)
